@@ -13,44 +13,44 @@ import (
 
 // the two wrappers give snapshotPath the call depth it has below an exported
 // Match* function (it skips itself, the match* wrapper and the exported func).
-func h11Exported(c *Config, name string, standalone bool) (string, string) {
-	return h11Inner(c, name, standalone)
+func vxH11Exported(c *Config, name string, standalone bool) (string, string) {
+	return vxH11Inner(c, name, standalone)
 }
 
-func h11Inner(c *Config, name string, standalone bool) (string, string) {
+func vxH11Inner(c *Config, name string, standalone bool) (string, string) {
 	return snapshotPath(c, name, standalone)
 }
 
 // helper frames in non-test source files between the test function and the call
-func h11Helper1(c *Config, name string, standalone bool, depth int) (string, string) {
+func vxH11Helper1(c *Config, name string, standalone bool, depth int) (string, string) {
 	vxrt.FrameFile("/pkg/helpers.go")
 	if depth > 1 {
-		return h11Helper2(c, name, standalone)
+		return vxH11Helper2(c, name, standalone)
 	}
-	return h11Exported(c, name, standalone)
+	return vxH11Exported(c, name, standalone)
 }
 
-func h11Helper2(c *Config, name string, standalone bool) (string, string) {
+func vxH11Helper2(c *Config, name string, standalone bool) (string, string) {
 	vxrt.FrameFile("/lib/deep/util.go")
-	f := func() (string, string) { return h11Exported(c, name, standalone) }
+	f := func() (string, string) { return vxH11Exported(c, name, standalone) }
 	return f()
 }
 
 // a test function in a second test file of the package: natively the closure is
 // provided by other_test.go of the harness directory, symbolically the frame is tagged
-var viaOtherTestFile func(func())
-var otherTestFileBase = "other.dot_test"
+var vxViaOtherTestFile func(func())
+var vxOtherTestFileBase = "other.dot_test"
 
-func h11ViaOther(f func()) {
+func vxH11ViaOther(f func()) {
 	if vxrt.Symbolic() {
 		vxrt.FrameFile("/pkg/other.dot_test.go")
 		f()
 		return
 	}
-	viaOtherTestFile(f)
+	vxViaOtherTestFile(f)
 }
 
-func symSuffix(label string, n int) string {
+func vxSymSuffix(label string, n int) string {
 	s := vxrt.Text(label, vxrt.Len(label+"-len", 0, n))
 	for i := 0; i < len(s); i++ {
 		ch := s[i]
@@ -71,49 +71,53 @@ func H_C11_location() {
 	vxrt.Chdir()
 	trim := vxrt.Bool("trimpath")
 	vxrt.Trimpath(trim)
-	calibrateSnapshotPath()
+	vxCalibrateSnapshotPath()
 	n := vxrt.Param("n", 2)
 	testDir := vxrt.TestFileDir()
 
 	var opts []func(*Config)
 	dirOpt := "__snapshots__"
-	switch vxrt.Choice("dir", 7) {
+	switch vxrt.Choice("dir", 8) {
+	case 7:
+		// an explicitly empty Dir: the snapshots sit next to the test file
+		dirOpt = ""
+		opts = append(opts, Dir(dirOpt))
 	case 4:
 		dirOpt = "."
 		opts = append(opts, Dir(dirOpt))
 	case 5:
-		dirOpt = "./d" + symSuffix("dir", n)
+		dirOpt = "./d" + vxSymSuffix("dir", n)
 		opts = append(opts, Dir(dirOpt))
 	case 6:
-		dirOpt = "../d" + symSuffix("dir", n)
+		dirOpt = "../d" + vxSymSuffix("dir", n)
 		opts = append(opts, Dir(dirOpt))
 	case 1:
-		dirOpt = "snaps" + symSuffix("dir", n)
+		dirOpt = "snaps" + vxSymSuffix("dir", n)
 		opts = append(opts, Dir(dirOpt))
 	case 2:
-		dirOpt = "a/b" + symSuffix("dir", n)
+		dirOpt = "a/b" + vxSymSuffix("dir", n)
 		opts = append(opts, Dir(dirOpt))
 	case 3:
-		dirOpt = "/abs/x" + symSuffix("dir", n)
+		dirOpt = "/abs/x" + vxSymSuffix("dir", n)
 		opts = append(opts, Dir(dirOpt))
 	}
 	fileOpt := ""
 	if vxrt.Bool("with-filename") {
-		fileOpt = "fn" + symSuffix("filename", n)
+		fileOpt = "fn" + vxSymSuffix("filename", n)
 		opts = append(opts, Filename(fileOpt))
 	}
 	extOpt := ""
 	if vxrt.Bool("with-ext") {
-		extOpt = ".e" + symSuffix("ext", n)
+		extOpt = ".e" + vxSymSuffix("ext", n)
 		opts = append(opts, Ext(extOpt))
 	}
 	c := WithConfig(opts...)
-	name := "Test" + symSuffix("name", n)
+	name := "Test" + vxSymSuffix("name", n)
 	if vxrt.Param("percent", 0) == 1 && vxrt.Bool("name-contains-percent-d") {
 		name += "%d"
 	}
 	if vxrt.Bool("subtest") {
-		name += "/" + symSuffix("sub", n)
+		name += "/" + vxSymSuffix("sub", n)
 	}
 	if vxrt.Param("known_K6", 1) == 1 {
 		// known finding K6: '%' in a standalone location (it is used as a format string)
@@ -126,19 +130,19 @@ func H_C11_location() {
 	}
 	ccBefore := cc
 	defer func() {
-		vxrt.Assert(cfgEqual(cc, ccBefore) && cfgEqual(*c, ccBefore) || api == 2 && cfgEqual(cc, ccBefore), "C12:config-unchanged-by-path-resolution")
+		vxrt.Assert(vxCfgEqual(cc, ccBefore) && vxCfgEqual(*c, ccBefore) || api == 2 && vxCfgEqual(cc, ccBefore), "C12:config-unchanged-by-path-resolution")
 	}()
 	helpers := vxrt.Choice("helper-frames", 4)
 	compute := func() string {
 		var got string
 		switch helpers {
 		case 0:
-			got, _ = h11Exported(&cc, name, standalone)
+			got, _ = vxH11Exported(&cc, name, standalone)
 		case 3:
 			// many frames of a helper in a non-test file of another directory
-			vxrt.Deep(vxrt.Param("deep", 40), func() { got, _ = h11Exported(&cc, name, standalone) })
+			vxrt.Deep(vxrt.Param("deep", 40), func() { got, _ = vxH11Exported(&cc, name, standalone) })
 		default:
-			got, _ = h11Helper1(&cc, name, standalone, helpers)
+			got, _ = vxH11Helper1(&cc, name, standalone, helpers)
 		}
 		return got
 	}
@@ -148,12 +152,12 @@ func H_C11_location() {
 		// of the package: the location follows that file
 		defer func() {
 			var got2 string
-			h11ViaOther(func() { got2 = compute() })
+			vxH11ViaOther(func() { got2 = compute() })
 			base := fileOpt
 			if base == "" {
-				base = otherTestFileBase
+				base = vxOtherTestFileBase
 			}
-			want := expectedDir(testDir, dirOpt, trim) + "/" + base + ".snap" + extOpt
+			want := vxExpectedDir(testDir, dirOpt, trim) + "/" + base + ".snap" + extOpt
 			vxrt.Assert(vxrt.Eq(got2, filepath.Clean(want)), "C11:location-follows-the-calling-test-file")
 		}()
 	}
@@ -168,9 +172,9 @@ func H_C11_location() {
 		// expected
 		base := fileOpt
 		if base == "" {
-			base = replaceSlash(name)
+			base = vxReplaceSlash(name)
 		}
-		want := expectedDir(testDir, dirOpt, trim) + "/" + base + "_" + itoa(k) + ".snap" + cc.extension
+		want := vxExpectedDir(testDir, dirOpt, trim) + "/" + base + "_" + vxItoa(k) + ".snap" + cc.extension
 		vxrt.Assert(vxrt.Eq(got, filepath.Clean(want)), "C11:standalone-location")
 		return
 	}
@@ -178,14 +182,20 @@ func H_C11_location() {
 	if base == "" {
 		base = vxrt.TestFileBase()
 	}
-	want := expectedDir(testDir, dirOpt, trim) + "/" + base + ".snap" + extOpt
+	want := vxExpectedDir(testDir, dirOpt, trim) + "/" + base + ".snap" + extOpt
 	vxrt.Assert(vxrt.Eq(got, filepath.Clean(want)), "C11:multi-entry-location")
 }
 
 // expectedDir: Dir when absolute, otherwise the test file's directory joined
 // with Dir. Under -trimpath the working directory is the package directory,
 // so a relative result resolves to the same place.
-func expectedDir(testDir, dirOpt string, trim bool) string {
+func vxExpectedDir(testDir, dirOpt string, trim bool) string {
+	if dirOpt == "" {
+		if trim {
+			return "."
+		}
+		return testDir
+	}
 	if dirOpt[0] == '/' {
 		return dirOpt
 	}
@@ -195,7 +205,7 @@ func expectedDir(testDir, dirOpt string, trim bool) string {
 	return testDir + "/" + dirOpt
 }
 
-func replaceSlash(s string) string {
+func vxReplaceSlash(s string) string {
 	out := ""
 	for i := 0; i < len(s); i++ {
 		if s[i] == '/' {
@@ -214,7 +224,7 @@ func replaceSlash(s string) string {
 // function's file (the outermost frame), not to the file of whatever frame sits next to go-snaps.
 func H_C11_nontest() {
 	vxrt.Chdir()
-	calibrateSnapshotPath()
+	vxCalibrateSnapshotPath()
 	var opts []func(*Config)
 	dirOpt := "__snapshots__"
 	switch vxrt.Choice("dir", 3) {
@@ -230,7 +240,7 @@ func H_C11_nontest() {
 	var got, rootFile string
 	vxrt.RunAsSubtest(func(*testing.T) {
 		_, rootFile, _, _ = runtime.Caller(0)
-		got, _ = h11bHelper(c, "TestN", standalone)
+		got, _ = vxH11bHelper(c, "TestN", standalone)
 	})
 	base := strings.TrimSuffix(filepath.Base(rootFile), ".go")
 	name := base + ".snap"
@@ -243,4 +253,41 @@ func H_C11_nontest() {
 	}
 	vxrt.Logf("got=" + got + " want=" + want + " root=" + rootFile)
 	vxrt.Assert(got == want, "C11:location-follows-the-test-function's-file")
+}
+
+// H_C11_created: observed from outside - with an absolute Dir (below the scratch directory) and
+// the working directory somewhere else, each entry point creates its first snapshot exactly at
+// the documented absolute location, and replays it from there.
+func H_C11_created() {
+	vxrt.CI(false)
+	vxrt.YAMLAssume(true)
+	vxrt.Chdir()
+	dir := vxrt.Dir() + "/abs/snaps"
+	opts := []func(*Config){Dir(dir), Filename("fn")}
+	ext := ""
+	if vxrt.Bool("with-ext") {
+		ext = ".txt"
+		opts = append(opts, Ext(ext))
+	}
+	c := WithConfig(opts...)
+	api := vxrt.Choice("api", 5)
+	want := dir + "/fn.snap" + ext
+	switch api {
+	case 3:
+		want = dir + "/fn_1.snap" + ext
+	case 4:
+		want = dir + "/fn_1.snap" + ext
+		if ext == "" {
+			want += ".json"
+		}
+	}
+	for round := 0; round < 2; round++ {
+		t := vxNewT("TestN")
+		vxCallAPI(c, api, t, `"v"`)
+		t.end()
+		vxrt.Assert(len(t.errors) == 0 && len(t.logs) == 1-round, "C11:created-then-replayed")
+		vxrt.Assert(vxReadFile(want) != "<missing>", "C11:created-at-the-documented-location")
+		names, _ := vxOsReadDirNames(dir)
+		vxrt.Assert(len(names) == 1, "C11:nothing-else-created")
+	}
 }
